@@ -28,6 +28,31 @@ def _gen_extrema(ctx):
                        "type": t, "terms": terms}
 
 
+def _coerce(terms, ctype):
+    """real coefficients of another numeric type (the property says: real coefficients)"""
+    if not ctype:
+        return terms
+    import fractions
+    import numpy as np
+    conv = {"fraction": lambda v: fractions.Fraction(v).limit_denominator(64), "np_int64": lambda v: np.int64(int(2 * v)),
+            "np_float64": np.float64, "np_float32": np.float32}[ctype]
+    return {k: conv(v) for k, v in terms.items()}
+
+
+def _gen_numeric_types(ctx):
+    rng = ctx.rng("c15.types")
+    n = ctx.pick(60, 1500)
+    for ctype in ("fraction", "np_int64", "np_float64", "np_float32"):
+        for spin in (False, True):
+            yield {"fn": "puso" if spin else "pubo", "type": "dict", "terms": {(): 2.5}, "ctype": ctype}
+            yield {"fn": "puso" if spin else "pubo", "type": "dict", "terms": {('a',): -1.5, ('a', 'b'): 2, (): 1}, "ctype": ctype}
+            for terms in gen_models(rng, n, LABELS[:4], 3, COEFS, max_terms=4, min_terms=1):
+                yield {"fn": "puso" if spin else "pubo", "type": "dict", "terms": terms, "ctype": ctype}
+            for t in (SPIN_TYPES if spin else BOOL_TYPES)[:2]:
+                for terms in gen_models(rng, n // 4, labels_for(t, 3), 2, COEFS, max_terms=3, min_terms=1):
+                    yield {"fn": "quso" if spin else "qubo", "type": t, "terms": terms, "ctype": ctype}
+
+
 def _nontrivial(case):
     return any(k for k in case["terms"]) and len(case["terms"]) >= 1
 
@@ -39,7 +64,7 @@ def check_extrema(case):
     q = qv()
     fn = getattr(q.utils, "approximate_%s_extrema" % case["fn"])
     spin = case["fn"] in ("puso", "quso")
-    terms = case["terms"]
+    terms = _coerce(case["terms"], case.get("ctype"))
     M = terms if case["type"] == "dict" else cls_of(case["type"])(terms)
     before = dict(M)
     lo, hi = fn(M)
@@ -54,6 +79,13 @@ def check_extrema(case):
         # constant model (as stored): both bounds equal the constant
         return Fail("constant model: got (%r, %r), constant %r" % (lo, hi, dict(M).get((), 0)), key="constant")
     return None
+
+
+@clause("C15.extrema_numeric_types", "C15", gen=_gen_numeric_types, nontrivial=_nontrivial)
+def check_extrema_types(case):
+    """the enclosure clause for real coefficients that are not int/float instances: fractions.Fraction,
+    numpy.int64, numpy.float64, numpy.float32 (same contract as C15.extrema_enclose)."""
+    return check_extrema(case)
 
 
 def _gen_trange(ctx):
